@@ -29,14 +29,14 @@ ANCHORS = [
     ("tangelo/linq/circuit.py", "get_unitary_circuit_pieces,generate_applied_gates", "splitting at measurement gates / replay of applied gates"),
     ("tangelo/toolboxes/post_processing/post_selection.py", "split_frequency_dict,split_frequency_dict_for_last_n_digits", "splitting joint frequencies"),
 ]
-REQUIRED = {"branch_state": 180, "branch_distribution": 180, "branch_probability": 180, "probabilities_sum_to_one": 50, "mixture_equals_density_matrix": 22, "applied_gates": 50, "sampled_all_frequencies": 20, "marginals": 40, "single_shot_state": 20, "generate_applied_gates": 30}
+REQUIRED = {"live_observations_total": 1, "branch_state": 180, "branch_distribution": 180, "branch_probability": 180, "probabilities_sum_to_one": 50, "mixture_equals_density_matrix": 22, "applied_gates": 50, "sampled_all_frequencies": 20, "marginals": 40, "single_shot_state": 20, "generate_applied_gates": 30}
 BUDGET = {"quick": 240, "thorough": 2400}
 TOL = 1e-9
 
 
 def cases(tier, seed):
     n = 160 if tier == "quick" else 4000
-    return [{"sub": "circ", "i": i} for i in range(n)]
+    return [{"sub": "circ", "i": i} for i in range(n)] + [{"sub": "repo_tests", "tier": tier}]
 
 
 # ---------------------------------------------------------------------------------------------
@@ -340,5 +340,17 @@ def run_circ(case, ctx):
                   lambda: dict(wit, all_frequencies=af, got=sv))
 
 
+def run_repo_tests(case, ctx):
+    """The repository's own tests that post-select on mid-circuit outcomes, as an additional workload for the branch monitor (vlib.livemon)."""
+    from vlib.harness import repo_tests_case
+    repo_tests_case(case, ctx, ["tangelo/linq/tests/test_simulator.py", "-k", "meas or desired or mid"],
+                    ["tangelo/linq/tests/test_simulator.py", "tangelo/algorithms/variational/tests/test_vqe_solver.py",
+                     "tangelo/algorithms/variational/tests/test_sa_vqe_solver.py", "tangelo/algorithms/variational/tests/test_adapt_vqe_solver.py",
+                     "-k", "meas or desired or mid or projective"],
+                    only=("conditioned_exact_branch",), semantic=("C10",))
+
+
 def run_case(case, ctx):
+    if case["sub"] == "repo_tests":
+        return run_repo_tests(case, ctx)
     run_circ(case, ctx)
